@@ -169,6 +169,26 @@ void profile_twin(RunCtx& ctx)
             }
         }
     }
+    // ... or a model-level semantic fault that both formats can express (duplicate names, wrong argument counts,
+    // unknown templates / processes): the recovered documents and their diagnostics must agree as well
+    if (seeded.empty() && rng.chance(0.25)) {
+        static const int kinds[] = {MF_DUP_LOC_NAME, MF_DROP_ARG, MF_EXTRA_ARG, MF_UNKNOWN_TEMPLATE, MF_DUP_PROCESS,
+                                    MF_UNKNOWN_PROCESS, MF_DUP_DECL, MF_DUP_PARAM, MF_DUP_TEMPLATE_NAME};
+        int f = kinds[rng.below(sizeof kinds / sizeof kinds[0])];
+        if (apply_model_fault(m, f, rng)) {
+            if (f == MF_DUP_LOC_NAME) {
+                // XTA attaches urgent/commit flags by name, XML by element: for namesakes only "no flag" means the same in both
+                for (auto& t : m.templs)
+                    for (auto& a : t.locs)
+                        for (auto& b : t.locs)
+                            if (&a != &b && a.docname() == b.docname())
+                                a.urgent = a.committed = b.urgent = b.committed = false;
+            }
+            seeded = std::string{"model:"} + model_fault_name(f);
+            ctx.count("twin-models-with-seeded-error");
+            ctx.count(std::string{"content-fault:model:"} + model_fault_name(f));
+        }
+    }
     XmlKnobs kn = draw_knobs(rng);
     Rng render_rng = rng.fork();
     const std::string xml = render_xml(m, kn, render_rng);
